@@ -20,7 +20,7 @@ KERNELS = [
     K("src_done_status", _S, _DONE + r".*?state\.status\((.*?)\);",
       [(r"solver_status::converged", "1"), (r"solver_status::failed", "2"), (r"solver_status::max_iters", "0"),
        (r"state\.valid\(\)", "valid")],
-      [("converged", "bool"), ("valid", "bool")], "c02", _P),
+      [("converged", "bool"), ("step_ok", "bool"), ("valid", "bool")], "c02", _P),   # repo 85997bc: (converged && step_ok)
     # the value returned on the two branches (first `return` = stop branch, second = go-on branch)
     K("src_done_ret_stop", _S, _DONE + r".*?state\.status\([^;]*;.*?return (.*?);", [], [], "c02", _P),
     K("src_done_ret_go", _S, _DONE + r".*?else\s*\{.*?return (.*?);", [], [], "c02", _P),
